@@ -80,7 +80,8 @@ example :
     decodeInt .u8 "-1".toList = none ∧ decodeInt .u8 "0x".toList = none ∧
     decodeInt .i8 "-".toList = none ∧ decodeInt .u8 "0b12".toList = none ∧
     decodeInt .u8 "_1".toList = none ∧ decodeInt .u64 "18446744073709551616".toList = none ∧
-    decodeInt .u8 "0x_".toList = some 0 ∧ decodeInt .u8 "1__2_".toList = some 12 ∧
+    decodeInt .u8 "0x_".toList = some 0 ∧ decodeInt .i8 "-_".toList = some 0 ∧
+    decodeInt .u8 "1__2_".toList = some 12 ∧
     decodeInt .i8 "-_1".toList = some (-1) ∧ decodeInt .u8 "0XfF".toList = some 255 ∧
     decodeInt .i8 "-128".toList = some (-128) ∧
     textValue true "-128".toList = some (-128) ∧ textValue false "-1".toList = none := by
